@@ -496,10 +496,19 @@ func (pg *Prog) Completed(ti *TraceIndex, in Inst, pos int, depth int) Status {
 	if t == nil || depth > 12 {
 		return StNotFinished
 	}
+	// deps run concurrently: the group has failed as soon as one of them has (the others are
+	// cancelled and may never start), otherwise it is finished when all are
+	depSt := StOK
 	for k, d := range t.Deps {
-		if st := pg.Completed(ti, CalleeInst(in, fmt.Sprintf("d%d", k), d), pos, depth+1); st != StOK {
-			return st
+		switch pg.Completed(ti, CalleeInst(in, fmt.Sprintf("d%d", k), d), pos, depth+1) {
+		case StFailed:
+			return StFailed
+		case StNotFinished:
+			depSt = StNotFinished
 		}
+	}
+	if depSt != StOK {
+		return depSt
 	}
 	type pend struct {
 		j    int
